@@ -2,6 +2,7 @@
 """Print the seeded-change table (markdown) from seeded/*/meta.json."""
 import glob, json, os, re
 rows = []
+FIRST = json.load(open(os.path.join(os.path.dirname(__file__), "..", "seeded", "first_evaluation.json")))
 for d in sorted(glob.glob(os.path.join(os.path.dirname(__file__), "..", "seeded", "*"))):
     m = os.path.join(d, "meta.json")
     if not os.path.exists(m):
@@ -21,11 +22,11 @@ for d in sorted(glob.glob(os.path.join(os.path.dirname(__file__), "..", "seeded"
         verdict = "caught: " + how
     else:
         verdict = "MISSED"
-    first = j.get("first_evaluation", "")
-    if first.startswith("MISSED"):
+    first = FIRST.get(sid, j.get("first_evaluation", ""))
+    if first.startswith("MISSED") or first.startswith("missed at first"):
         verdict += " (missed at first; check strengthened)"
-    elif first.startswith("not reported"):
-        verdict += " (first run hit the time limit; core.py fixed)"
+    elif first.startswith("not reported") or first.startswith("first run"):
+        verdict += " (" + first.split(";")[0] + "; core.py fixed)"
     rows.append((sid, summary, "yes" if ok or "patch applies" in str(conf) else "no", verdict))
 print("| seeded change | what it does | confirmed | result |")
 print("|---|---|---|---|")
